@@ -881,6 +881,8 @@ PROPS["C15"] = {
         "Lace.C15.eval_ld_label",
         "Lace.C15.eval_st_label",
         "Lace.C15.eval_pc_only_jumps_partial",
+        "Lace.C15.eval_pc_only_jumps_holds",
+        "Lace.C15.eval_never_ends_session_holds",
         "Lace.C15.refused_noop",
         "Lace.C15.eval_refusals_noop",
         "Lace.C15.eval_never_ends_session_partial",
